@@ -559,6 +559,28 @@ func (fr *Frame) exec(args []Val, free []Val, st State) ([]Val, State, string) {
 	for i, h := range loopHeaders(fn) {
 		fr.loopOrd[h] = i + 1
 	}
+	// source names of locals (for loop invariants): collected up front, so that a local that is only addressed
+	// later in the function (e.g. assigned inside the loop) is already known at the loop head; lookupName keeps
+	// only references whose value is defined in a dominating block
+	for _, b := range fn.Blocks {
+		for _, in := range b.Instrs {
+			if x, ok := in.(*ssa.DebugRef); ok && x.Object() != nil {
+				key := x.Object().Name()
+				if x.IsAddr {
+					key = "&" + key
+				}
+				dup := false
+				for _, y := range fr.names[key] {
+					if y == x.X {
+						dup = true
+					}
+				}
+				if !dup {
+					fr.names[key] = append(fr.names[key], x.X)
+				}
+			}
+		}
+	}
 	order := rpo(fn)
 	for _, b := range order {
 		fr.execBlock(b, st)
@@ -756,11 +778,6 @@ func (fr *Frame) execInstr(b *ssa.BasicBlock, in ssa.Instruction, st *State, rea
 	case *ssa.DebugRef:
 		if id, ok := x.Expr.(interface{ String() string }); ok && !x.IsAddr {
 			_ = id
-		}
-		if x.Object() != nil && !x.IsAddr {
-			fr.names[x.Object().Name()] = append(fr.names[x.Object().Name()], x.X)
-		} else if x.Object() != nil && x.IsAddr {
-			fr.names["&"+x.Object().Name()] = append(fr.names["&"+x.Object().Name()], x.X)
 		}
 	case *ssa.Alloc:
 		elem := x.Type().Underlying().(*types.Pointer).Elem()
@@ -1759,12 +1776,16 @@ func (fr *Frame) invEnv(b *ssa.BasicBlock, phis map[string]Val, st *State) *Env 
 		}
 	}
 	env.lookup = func(name string) (Val, bool) {
-		if v, ok := fr.lookupName(name, b, phis); ok {
+		if v, ok := phis[name]; ok {
 			return v, true
 		}
-		// a local whose address is taken lives in a cell: read its current content
+		// a local whose address is taken lives in a cell: read its current content (a value reference to such a
+		// local only records what was stored into it at some earlier assignment)
 		if p, ok := fr.lookupName("&"+name, b, phis); ok && p.PBase != nil {
 			return fr.fc.load(st, p), true
+		}
+		if v, ok := fr.lookupName(name, b, phis); ok {
+			return v, true
 		}
 		return Val{}, false
 	}
